@@ -543,6 +543,7 @@ def evaluate(lines, impl, model, stats, ctx=None):
     return bad_out, mism, nontriv
 
 
+NOFREE_QUICK = 120    # cases of the no-free-space stream in the quick tier
 SKIP_LIMIT = 0.01     # fraction of the history cases that may be skipped (GENERR / malformed / out-of-domain regions) before the run fails
 
 
@@ -575,11 +576,12 @@ def run(ctx):
     lines = common.corpus("C16", ("HR ", "HC ", "SP "))
     ncorpus = len(lines)
     if ctx.quick:
-        plan = [(ctx.seed, 2200, None), (ctx.seed + 7000, 150, "heavy"), (ctx.seed, 2500, "split")]
+        # "nofree": circuits without free space (every row covered by fixed obstructions: finding F28), first so that the NDEBUG prefix has them
+        plan = [(ctx.seed + 9000, NOFREE_QUICK, "nofree"), (ctx.seed, 2200, None), (ctx.seed + 7000, 150, "heavy"), (ctx.seed, 2500, "split")]
     else:
         plan = []
         for s in (ctx.seed, ctx.seed + 1000, ctx.seed + 2000):
-            plan += [(s, 15000, None), (s + 7000, 1500, "heavy"), (s, 20000, "split")]
+            plan += [(s + 9000, 1000, "nofree"), (s, 15000, None), (s + 7000, 1500, "heavy"), (s, 20000, "split")]
     for (s, n, mode) in plan:
         lines += common.harness_gen(harness, [s, n] + ([mode] if mode else []))
     stats = Stats()
@@ -590,7 +592,7 @@ def run(ctx):
     # quick tier) plus every case on which the assert-enabled build died, so that the report says what the state looks like
     h2 = common.build_harness("density", "ndebug")
     died = [l for (l, i, w) in bad_out if "aborted/crashed/threw" in w][:40]
-    sub = (lines if not ctx.quick else lines[:ncorpus + 1200])
+    sub = (lines if not ctx.quick else lines[:ncorpus + NOFREE_QUICK + 1200])
     sub = sub + [l for l in died if l not in set(sub)]
     pos = {l: k for k, l in enumerate(lines)}
     impl2, _, _ = common.run_both([h2, "run"], None, sub, timeout=1200, chunk=200)
